@@ -102,7 +102,74 @@ func c02MakePlan(r *gen.R, name string, nb, procs int) c02Plan {
 	return p
 }
 
+// c02Twins: several scanners over different files running at the same time in one process.
+// Scanners must not share mutable package state (pooled buffers, cached tables).
+func c02Twins(c fw.Case) *fw.Result {
+	res := fw.NewResult()
+	n := int(c.Int("scanners"))
+	type job struct {
+		data  []byte
+		want  []pbfw.Expect
+		procs int
+	}
+	var jobs []job
+	for i := 0; i < n; i++ {
+		r := gen.New(gen.Sub(c.Seed, "c02twin", i), "c02twin")
+		nb := r.Range(6, 30)
+		f := pbfw.GenFile(r, pbfw.GenOpts{MinBlocks: nb, MaxBlocks: nb, MaxGroups: 2, MaxElems: 25})
+		if i%3 == 0 {
+			for _, b := range f.Blocks {
+				b.Zlib = false // raw blobs: the decoder works on the blob's own bytes
+			}
+		}
+		data, _ := f.Encode(nil)
+		jobs = append(jobs, job{data, f.ExpectAll(), []int{1, 2, 4, 11}[i%4]})
+	}
+	var wg sync.WaitGroup
+	start := make(chan struct{})
+	for i, j := range jobs {
+		wg.Add(1)
+		go func(i int, j job) {
+			defer wg.Done()
+			<-start
+			for rep := 0; rep < 3; rep++ {
+				var snaps []string
+				sr := pbfScan(mon.NewReader(j.data), j.procs, false, nil, func(k int, o osm.Object, s *osmpbf.Scanner) {
+					snaps = append(snaps, eq.Dump(o))
+					if k%7 == 0 {
+						runtime.Gosched()
+					}
+				})
+				key := fmt.Sprintf("C02/twins/procs%d", j.procs)
+				if sr.Err != nil {
+					res.Violatef(key+"/err", "scanner %d of %d concurrent scanners failed on a valid file: %v", i, len(jobs), sr.Err)
+					continue
+				}
+				if d := pbfw.CompareSeq(j.want, sr.Objs); d != "" {
+					res.Violatef(key+"/sequence", "scanner %d of %d concurrent scanners: %s", i, len(jobs), d)
+				}
+				for k, o := range sr.Objs {
+					if k < len(snaps) && eq.Dump(o) != snaps[k] {
+						res.Violatef(key+"/retained-object-changed", "scanner %d: object #%d changed after delivery while other scanners were running", i, k)
+						break
+					}
+				}
+				res.Event(int64(len(sr.Objs)))
+			}
+		}(i, j)
+	}
+	close(start)
+	wg.Wait()
+	res.Add("concurrent_scanner_runs", int64(3*len(jobs)))
+	res.Eval(fmt.Sprintf("twins/%d/%s", n, c.Variant))
+	res.Sample = map[string]any{"scanners": n, "variant": c.Variant}
+	return res
+}
+
 func c02Exec(c fw.Case) *fw.Result {
+	if c.Kind == "twins" {
+		return c02Twins(c)
+	}
 	res := fw.NewResult()
 	r := gen.New(c.Seed, "c02")
 	nb := r.Range(12, 60)
@@ -301,6 +368,13 @@ func c02Cases(tier string, seed uint64) []fw.Case {
 	}
 	add("race", nRace)
 	add("plain", nPlain)
+	ntw := 8
+	if tier == "thorough" {
+		ntw = 80
+	}
+	for i := 0; i < ntw; i++ {
+		cs = append(cs, fw.Case{Kind: "twins", Variant: []string{"race", "plain"}[i%2], Seed: gen.Sub(seed, "c02twins", i), P: map[string]int64{"scanners": int64(3 + i%6)}})
+	}
 	return fw.Number(cs)
 }
 
@@ -308,7 +382,7 @@ func init() {
 	fw.Register(&fw.Prop{
 		ID:    "C02",
 		Level: "exploration",
-		Rule: "PRNG files of 12-60 small mixed blocks (a fifth of them without header block, i.e. resumed streams); decoder counts {1,2,3,4,7,10,11,16,32}; perturbation plans {none, reverse staircase, one slow worker, slow reader, slow consumer, bursty, random, Gosched storm} injected in the reader's Read, the decoders' filter callbacks and the consumer loop; GOMAXPROCS {default,1,2,16}; half the runs under the race detector. " +
+		Rule: "PRNG files of 12-60 small mixed blocks (a fifth of them without header block, i.e. resumed streams); decoder counts {1,2,3,4,7,10,11,16,32}; perturbation plans {none, reverse staircase, one slow worker, slow reader, slow consumer, bursty, random, Gosched storm} injected in the reader's Read, the decoders' filter callbacks and the consumer loop; GOMAXPROCS {default,1,2,16}; half the runs under the race detector; plus 3-8 scanners over different files running concurrently in one process. " +
 			"Schedules are sampled, not enumerated. Signature = (decoders, plan, GOMAXPROCS, run had a completion inversion, consumer overlapped a later block's decoding); the evidence also counts distinct block-completion permutations.",
 		Assumptions: []string{
 			"filter callbacks always return true here, so the sequence must equal the unfiltered model sequence",
